@@ -471,5 +471,9 @@ func (s SyscallWithConditions) Assemble(p *Program, action Label) {
 		}
 		p.SetLabel(noMatch)
 	}
+
+	// None of the conditions matched. The accumulator holds an argument now,
+	// so load the syscall number again for the checks that follow.
+	p.LdNr()
 	p.SetLabel(nextSyscall)
 }
